@@ -102,13 +102,22 @@ func genC09(t *rapid.T) c09Case {
 	if profiled && rapid.Bool().Draw(t, "profile-active") {
 		o.Profiles = []string{"extra"}
 	}
-	switch rapid.IntRange(0, 3).Draw(t, "opts") {
+	switch rapid.IntRange(0, 5).Draw(t, "opts") {
 	case 1:
 		o.SkipNormalization = true
 	case 2:
 		o.NoResolvePaths = true
 	case 3:
 		o.SkipNormalization, o.NoResolvePaths = true, true
+	case 4, 5:
+		// the caller has registered a Go type for an extension: it is decoded into that type, rendered from it,
+		// and decoded again on reload
+		o.KnownExt = rapid.SampledFrom([]string{"value", "pointer"}).Draw(t, "known-extension")
+		ext := map[string]any{"name": "n1", "tags": map[string]any{"a": "b"}, "list": []any{"x", "y"}}
+		doc["x-known"] = cloneTree(ext)
+		if n := sortedKeys(svcs); len(n) > 0 && rapid.Bool().Draw(t, "known-extension-on-service") {
+			svcs[n[0]].(map[string]any)["x-known"] = cloneTree(ext)
+		}
 	}
 	if o.NoResolvePaths {
 		// unresolved relative env/label files would be looked up in the process directory
